@@ -54,9 +54,17 @@ struct Rec {
 };
 // the most hostile payload a client may legally use: everything user code can do wrong at run time
 // (throwing copies, throwing assignments, throwing comparison) is possible in its type
+// special members a class may legitimately lose (`= delete`) are exercised only where they exist
+template<class T>
+void move_assign_if_possible(T& to, T& from)
+{
+    if constexpr (std::is_move_assignable_v<T>) {
+        to = std::move(from);
+    }
+}
 struct Hostile {
     std::vector<int> v;
-    Hostile() = default;
+    Hostile() {}  // user-provided: not noexcept, not trivial (selects the 'may throw' arm of every trait test)
     Hostile(const Hostile& o): v(o.v) {}
     Hostile(Hostile&& o) noexcept: v(std::move(o.v)) {}
     Hostile& operator=(const Hostile& o)
@@ -463,7 +471,7 @@ void use_concurrency()
     TripWireTrigger t1(1U);
     TripWireTrigger t2(make_tripline());
     TripWireTrigger t3(std::move(t2));
-    t1 = std::move(t3);
+    move_assign_if_possible(t1, t3);
     (void)make_triplines(2);
     // every public operation is also CALLED (lvalue and rvalue arguments), so that an operation that becomes a member
     // template is still instantiated and analysed
